@@ -65,6 +65,13 @@ def universe(size):
           P.ESubst(P.MetaVar(0), P.EVar(0), P.EVar(1)), P.Implies(P.ESubst(P.MetaVar(0), P.EVar(0), P.EVar(1)), P.MetaVar(1)),
           P.Implies(P.EVar(0), P.EVar(0)), P.Implies(P.EVar(1), P.EVar(0)),
           P.Implies(P.neg(P.EVar(0)), P.neg(P.EVar(0))), P.Implies(P.EVar(0), P.Implies(P.EVar(1), P.EVar(0)))]
+    # implications / applications hidden behind definitions headed by a metavariable or by a pending substitution
+    from frozendict import frozendict
+    idn = P.Notation('idn', 1, P.MetaVar(0), 'idn({0})')
+    sub1 = P.Notation('sub1', 2, P.ESubst(P.MetaVar(0), P.EVar(1), P.MetaVar(1)), '{0}[{1}/x1]')
+    a, b = P.EVar(0), P.Symbol('s0')
+    S += [P.Instantiate(P.MetaVar(2), frozendict({2: P.Implies(a, b)})), idn(P.Implies(a, P.MetaVar(0))), idn(P.App(b, a)),
+          sub1(P.App(P.EVar(1), a), b), sub1(P.Implies(P.EVar(1), P.MetaVar(0)), a), P.Implies(idn(P.Implies(a, b)), P.MetaVar(1))]
     return S
 
 
@@ -243,6 +250,28 @@ def notation_chunk(args):
                     # "rebuild an EQUAL pattern": by the toolkit's own equality too (callers compare with ==)
                     out['viol'].append(({'op': fname + '/eq', 'notation': n.label, 'arity': n.arity, 'args': repr(tuple(app.inst.values()))},
                                         f'{n.label}.{fname}({app}) rebuilds a pattern with the same expansion that does not compare equal (==) to the application'))
+            if n.arity >= 2:
+                # the same application assembled with its argument map in another order (as instantiate_pattern callers and a
+                # partial application completed later produce it)
+                from frozendict import frozendict
+                items = list(app.inst.items())
+                variants = [P.Instantiate(app.pattern, frozendict(reversed(items)))]
+                if not any(items[0][0] in v.metavars() for _, v in items[1:]):
+                    # (completing a partial application instantiates the arguments already present as well, so this
+                    #  is the same application only when they do not mention the completed parameter)
+                    try:
+                        variants.append(P.Instantiate(app.pattern, frozendict(items[1:])).instantiate(dict(items[:1])))
+                    except Exception:  # noqa: BLE001
+                        pass
+                for v in variants:
+                    try:
+                        r = n.matches(v)
+                    except Exception as ex:  # noqa: BLE001
+                        out['viol'].append(({'op': 'matches/reordered', 'notation': n.label, 'arity': n.arity}, f'{n.label}.matches on a re-ordered application raised {type(ex).__name__}'))
+                        continue
+                    if r is None or bridge.expand(n(*r)) != bridge.expand(app):
+                        out['viol'].append(({'op': 'matches/reordered', 'notation': n.label, 'arity': n.arity, 'args': repr(tuple(app.inst.values()))},
+                                            f'{n.label}.matches({app}) with the argument map written as {list(v.inst.keys())} returns {r}: rebuilds a different pattern'))
             if n.arity == 0:
                 out['arity0'] += 1
             # the expansion (no notation at all) must be recognised too
